@@ -612,6 +612,19 @@ func init() {
 		snap := ex.load(a[1].(PtrV)).(*SnapObj)
 		return ex.sameState(ex.ctxArg(a[0]).ms, snap.ms)
 	})
+	reg(rtPkg+"DescribeDiff", func(ex *Exec, a []Val) Val { return ex.mkStr("") })
+	reg(rtPkg+"ClearStore", func(ex *Exec, a []Val) Val {
+		c := ex.ctxArg(a[0])
+		k, ok := a[1].(IfaceV).V.(*StoreKeyObj)
+		if !ok {
+			ex.unmodelled("ClearStore with foreign store key")
+		}
+		st := c.ms.get(k.Name)
+		for _, e := range append([]storeEntry{}, st.view(ex)...) {
+			st.del(ex, e.key)
+		}
+		return nil
+	})
 	reg(rtPkg+"ForkContext", func(ex *Exec, a []Val) Val {
 		c := ex.ctxArg(a[0])
 		return c.with(func(n *CtxV) { n.ms = c.ms.snapshot(ex); n.events = &EventMgrObj{} })
